@@ -25,12 +25,24 @@ impl SkipList<Vec<u8>, f64> {
     { unimplemented!() }
     #[verifier::external_body]
     pub fn remove(&self, key: &[u8]) -> (r: Option<f64>) { unimplemented!() }
+    /// ASSUMED CONTRACT (skiplist.rs SkipList::range_by_score; its body is raw-pointer code — bounded Kani instances skiplist_2ins_queries_*): the
+    /// answer is a function of the list's content at the call and of the two bounds IN THIS ORDER
+    #[verifier::external_body]
+    pub fn range_by_score(&self, min_score: f64, max_score: f64) -> (r: ScoreRange)
+        ensures r.items@ == spec_sl_by_score(*self, min_score, max_score),
+    { unimplemented!() }
     #[verifier::external_body]
     pub fn get_score(&self, key: &[u8]) -> (r: Option<f64>)
         ensures r matches Some(s) ==> !f64_is_nan(s),      // stored scores are numbers (invariant kept by insert's precondition)
     { unimplemented!() }
 }
 
+/// the result record of the range functions (skiplist.rs RangeResult<K, V> at K = Vec<u8>, V = f64)
+pub struct ScoreRange { pub items: Vec<(Vec<u8>, f64)> }
+pub uninterp spec fn spec_sl_by_score(s: SkipList<Vec<u8>, f64>, min: f64, max: f64) -> Seq<(Vec<u8>, f64)>;
+/// `items.reverse()` (RT site)
+#[verifier::external_body]
+pub fn verif_reverse_items(v: &mut Vec<(Vec<u8>, f64)>) ensures final(v)@ == old(v)@.reverse(), { unimplemented!() }
 /// stream identity: the object that carries the entries AND the highest ID ever added
 pub struct StreamId { pub packed: u128 }
 /// an entry as the engine hands it on (opaque here) and the result record of the range functions (stream.rs StreamRangeResult)
